@@ -441,6 +441,10 @@ func plainPool(e *emitter) [][]byte {
 			add(nasTestpacket.GetSecurityModeComplete(e.bytes(n)))
 		}
 	}
+	// messages whose length is 1, 2, 3 octets beyond a multiple of 3072 octets (768 keystream words) and of 1536
+	for _, n := range []int{3061, 3062, 3063, 3064, 3065, 3066, 3067, 3068, 3069, 3070, 1525, 1526, 1527, 1528, 1529, 1530, 1531, 1532, 1533, 1534} {
+		add(nasTestpacket.GetRegistrationComplete(e.bytes(n)))
+	}
 	add(nasTestpacket.GetRegistrationComplete(nil))
 	add(nasTestpacket.GetConfigurationUpdateComplete())
 	add(nasTestpacket.GetDeregistrationAccept())
@@ -483,7 +487,8 @@ func plainPool(e *emitter) [][]byte {
 	// hide a decoder that loses part of one of them): REGISTRATION ACCEPT ending in a half-octet IE (NSSAI inclusion mode A-,
 	// Network slicing indication 9-, MICO indication B-), CONFIGURATION UPDATE COMMAND with Configuration update indication D-,
 	// Network slicing indication with either flag alone, MICO indication. The receiver recovers exactly these octets.
-	for _, h := range []string{"7e00420101a1", "7e0042010191", "7e00420101b1", "7e0042010191a1", "7e00420101a0", "7e005491", "7e005492", "7e005493",
+	// … and an UL NAS TRANSPORT carrying both Old PDU session ID and Request type (in the order of TS 24.501 table 8.2.10.1.1)
+	for _, h := range []string{"7e00670100012e1205590381", "7e00420101a1", "7e0042010191", "7e00420101b1", "7e0042010191a1", "7e00420101a0", "7e005491", "7e005492", "7e005493",
 		"7e0054d1", "7e0054d192", "7e0054b1"} {
 		b, err := hex.DecodeString(h)
 		if err != nil {
